@@ -272,7 +272,7 @@ def run_many(tier: str, seed: int):
     viol = []
     res = {}
     with engine.Quiet():
-        for n_conn, mode in ((120, "dynamic"), (300, "mixed"), (300, "massdeath")):
+        for n_conn, mode in ((120, "dynamic"), (300, "mixed"), (120, "massdeath"), (300, "massdeath")):
             st = Stand(False, salt=seed)
             h = st.h
             try:
